@@ -58,6 +58,8 @@ def run(C, R):
         E = C.engine(cfg)
         CG = C.cg(cfg)
         R.configs.append(cfg)
+        from common import constructor_state
+        constructor_state(R, C.engine(cfg), C.facts(cfg), STATE, {'permits': ('param', 'permits'), 'is_fair': ('param', 'is_fair'), 'waiters': 'empty-queue'}, 'C05.R0')
         from common import wrapper_discipline
         R.floor('C05.W wrapper-paths[%s]' % cfg, wrapper_discipline(C, R, cfg, ['sync::semaphore::SemaphoreState'], 'C05.W'), 2)
         nsub = 0
